@@ -34,6 +34,10 @@ func parseTextDescription(data []byte) (TextDescription, error) {
 		return desc, err
 	}
 
+	if asciiCount == 0 || uint64(asciiCount) > uint64(reader.Len()) {
+		return desc, fmt.Errorf("description length exceeds tag data length")
+	}
+
 	asciiBytes := make([]byte, asciiCount-1)
 	for i := 0; i < len(asciiBytes); i++ {
 		asciiBytes[i], err = reader.ReadByte()
